@@ -10,7 +10,7 @@ from __future__ import annotations
 import itertools
 
 from .. import gen
-from ..core import CaseTimeout, case_deadline, rng_for, short_tb
+from ..core import CaseTimeout, case_deadline, rng_for, short_tb, note_exc
 
 PROP = "C08"
 LEVEL = "exploration"
@@ -385,7 +385,7 @@ def run_case(case, res):
         res.inconc("case watchdog fired")
         return
     except Exception:
-        bad.append("harness/exception: " + short_tb())
+        note_exc(res, bad, "exception escaped from the library: ")
     if bad:
         res.violation(case, "; ".join(bad[:2])[:2500], n_bad=len(bad))
 
